@@ -76,8 +76,8 @@ def run_query(q):
     open(cpath, 'w').write(q.c)
     if q.kind == 'cbmc':
         r = cbmcrun.run_cbmc(cpath, q.entry, defines=q.defines, checks=q.checks, timeout=q.timeout, mem_gb=q.mem_gb, extra=q.extra)
-        if r['status'] == 'undecided' and 'timeout' in r.get('why', ''):
-            # second back end before giving up
+        if r['status'] == 'undecided' and 'timeout' in r.get('why', '') and not str(q.qid).startswith('bbk/lemma/'):
+            # second back end before giving up (not for the long IEEE lemmas: cadical is 7x faster than the others on them)
             r2 = cbmcrun.run_cbmc(cpath, q.entry, defines=q.defines, checks=q.checks, timeout=q.timeout, mem_gb=q.mem_gb,
                                   extra=q.extra, solver=('--external-sat-solver', 'kissat'))
             r2['wall_s'] += r['wall_s']
@@ -339,7 +339,7 @@ def bbk_queries(db, prop, tier):
                 skipped.append(('bbk/lemma/%s' % name, 'ASSUMED in the quick tier (IEEE add/sub lemma, decided or attempted in the thorough tier only)'))
                 continue
             q = bbk.build_lemma(spec, name)
-            qq = Query('bbk/lemma/%s' % name, q['c'], checks=['--no-standard-checks'], meta=q['meta'], timeout=3600 if tier == 'thorough' else 1500, mem_gb=8)
+            qq = Query('bbk/lemma/%s' % name, q['c'], checks=['--no-standard-checks'], meta=q['meta'], timeout=2400 if tier == 'thorough' else 1500, mem_gb=8)
             qq.meta['soft'] = True
             qs.append(qq)
     return qs, skipped
